@@ -129,10 +129,10 @@ func scenarioSample(sc *Scenario) map[string]interface{} {
 	return map[string]interface{}{
 		"case": fmt.Sprintf("%s seed=%d index=%d", sc.Prop, sc.Seed, sc.Index), "start": sc.Start.String(), "end": sc.End.String(),
 		"date_format": dateFormatNames[sc.DateFormat], "soil": hs, "layers": sc.Soil.N(), "ptf": sc.PTF,
-		"drain": fmt.Sprintf("depth %d dm fraction %g", sc.Soil.DrainDep, sc.Soil.DrainFrac),
+		"drain":       fmt.Sprintf("depth %d dm fraction %g", sc.Soil.DrainDep, sc.Soil.DrainFrac),
 		"groundwater": fmt.Sprintf("mode %d level %d hi/lo %d/%d series %d", sc.GWMode, sc.Soil.GW, sc.GRHI, sc.GRLO, len(sc.GWSeries)),
-		"weather": fmt.Sprintf("layout %d, %d days from %s, none=%g", sc.Weather.Layout, len(sc.Weather.Days), firstDay(sc), sc.Weather.NoneValue),
-		"et_method": sc.ETpot, "latitude": sc.Latitude, "rotation": rot,
+		"weather":     fmt.Sprintf("layout %d, %d days from %s, none=%g", sc.Weather.Layout, len(sc.Weather.Days), firstDay(sc), sc.Weather.NoneValue),
+		"et_method":   sc.ETpot, "latitude": sc.Latitude, "rotation": rot,
 		"events": fmt.Sprintf("fert %d till %d irr %d", len(sc.Fert), len(sc.Till), len(sc.Irr)), "injections": len(sc.Inject),
 		"auto": fmt.Sprintf("sow=%v fert=%v irr=%v harvest=%v", sc.AutoSow, sc.AutoFert, sc.AutoIrr, sc.AutoHarvest),
 	}
